@@ -183,6 +183,10 @@ type Scenario struct {
 	CleanOpts  bool             `json:"clean_opts"`
 	NoClean    bool             `json:"no_clean"`
 	CleanTwice bool             `json:"clean_twice"` // Clean is called twice in a row in TestMain
+	// CleanOptsN >= 2: the CleanOpts value is passed that many times (variadic parameter)
+	CleanOptsN int `json:"clean_opts_n,omitempty"`
+	// CleanBefore: TestMain also calls Clean before m.Run (only used when Clean may not delete)
+	CleanBefore bool `json:"clean_before,omitempty"`
 	Roots      []string         `json:"roots"`
 }
 
